@@ -64,8 +64,11 @@ impl<const N: usize> Hold<N> {
     }
 }
 
-struct FaultyIter {
-    inner: std::vec::IntoIter<E>,
+pub struct FaultyIter {
+    pub inner: std::vec::IntoIter<E>,
+    /// size_hint shape: 0 exact, 1 unknown, 2 loose upper bound, 3 exact lower bound without upper
+    pub hint: usize,
+    pub slack: usize,
 }
 impl Iterator for FaultyIter {
     type Item = E;
@@ -74,6 +77,15 @@ impl Iterator for FaultyIter {
             panic!("injected fault: iterator next");
         }
         self.inner.next()
+    }
+    fn size_hint(&self) -> (usize, Option<usize>) {
+        let m = self.inner.len();
+        match self.hint {
+            0 => (m, Some(m)),
+            2 => (0, Some(m + self.slack)),
+            3 => (m, None),
+            _ => (0, None),
+        }
     }
 }
 
@@ -204,9 +216,10 @@ pub fn apply<const N: usize>(
             m(|| sut.buf().clear());
             tr.push(Obs::Unit)
         }
-        Extend(_) => {
+        Extend(_) | ExtendHint(..) => {
             let v: Vec<E> = std::mem::take(args);
-            let it = FaultyIter { inner: v.into_iter() };
+            let hint = if let ExtendHint(_, h) = *act { h } else { 1 };
+            let it = FaultyIter { inner: v.into_iter(), hint, slack: 2 * N + 3 };
             m(|| sut.buf().extend(it));
             tr.push(Obs::Unit)
         }
@@ -511,7 +524,7 @@ pub fn n_args(act: &Act) -> usize {
     use Act::*;
     match *act {
         PushBack | PushFront | TryPushBack | TryPushFront | Fill | FillSpare | WriteVia(..) => 1,
-        Extend(m) | ExtendFromSlice(m) => m,
+        Extend(m) | ExtendFromSlice(m) | ExtendHint(m, _) => m,
         _ => 0,
     }
 }
@@ -817,6 +830,9 @@ pub fn balance(rec: &StepRec) -> Vec<Problem> {
             ),
         ));
     }
+    if cfg!(feature = "plain") {
+        return out; // destruction is unobservable for an element without drop glue
+    }
     for id in &sorted {
         if !rec.live.contains(id) {
             out.push(pb(
@@ -855,7 +871,7 @@ pub fn final_drop<const N: usize>(sut: Sut<N>, keep: Hold<N>) -> Vec<Problem> {
         out.push(pb(PKind::BadEvent, format!("at final drop: {}", bad.join(", "))));
     }
     let live = ledger::live_ids();
-    if !live.is_empty() {
+    if !live.is_empty() && !cfg!(feature = "plain") {
         out.push(pb(PKind::Leak, format!("{} element(s) still live after everything was dropped", live.len())));
     }
     out
